@@ -70,6 +70,19 @@ Fixpoint dispatch (c : cluster) (i : Z) (n : node) (outs : list output) (pend : 
   | _ :: r => dispatch c i n r pend
   end.
 
+(* a send over a cut link raises in xml_rpc (OSError -> SupervisorProxyException); handle_exception then posts an
+   INSTANCE_FAILURE notice locally when the target is regarded active (state after the step). Same order as the
+   sends: publication-major, peers in mapper order *)
+Definition send_fail (c : cluster) (i : Z) (n : node) (j : Z) : list event :=
+  if is_cut c i j && regards_active n j then [InstFailure (ok_origin j) 0] else [].
+Fixpoint dispatch_fails (c : cluster) (i : Z) (n : node) (outs : list output) : list event :=
+  match outs with
+  | [] => []
+  | Publish _ _ _ _ :: r => flat_map (send_fail c i n) (peers n) ++ dispatch_fails c i n r
+  | _ :: r => dispatch_fails c i n r
+  end.
+Definition tick_fails (c : cluster) (i : Z) (n : node) : list event := flat_map (send_fail c i n) (peers n).
+
 (* the TICK publication goes to every peer that is not ISOLATED *)
 Definition broadcast_tick (c : cluster) (i : Z) (n : node) (cnt : Z) : cluster :=
   fold_left (fun c j => if not_isolated n j then push_msg c i j (MTick cnt) else c) (peers n) c.
@@ -92,7 +105,7 @@ Definition apply_step (c : cluster) (i : Z) (cn : cnode) (e : event) : result cl
   | Crash k => Crash k
   | Ok (n', outs) =>
       let '(c1, pend) := dispatch c i n' outs (cn_pending cn) in
-      Ok (set_node c1 i (mkCnode n' (cn_up cn) (cn_cnt cn) (cn_inbox cn) pend))
+      Ok (set_node c1 i (mkCnode n' (cn_up cn) (cn_cnt cn) (cn_inbox cn ++ dispatch_fails c i n' outs) pend))
   end.
 
 (* what node i's proxy learns from instance j during check_instance (atomic read of j's current state) *)
@@ -130,7 +143,10 @@ Definition cstep (c : cluster) (a : action) : result cluster :=
             | Crash k => Crash k
             | Ok c1 =>
                 match aget i (c_nodes c1) with
-                | Some cn2 => Ok (broadcast_tick c1 i (cn_node cn2) cnt)
+                | Some cn2 =>
+                    let c2 := broadcast_tick c1 i (cn_node cn2) cnt in
+                    Ok (set_node c2 i (mkCnode (cn_node cn2) (cn_up cn2) (cn_cnt cn2)
+                                               (cn_inbox cn2 ++ tick_fails c i (cn_node cn2)) (cn_pending cn2)))
                 | None => Ok c1
                 end
             end
